@@ -289,7 +289,10 @@ def _(c):
     c.bound = (f"{len(HAND_TEXTS)} hand-written and {N_CASE} generated texts (seeded grammar: definitions, groups, imports, case blocks nested <= 3, "
                "clauses closed by @end / next clause / indentation); truth values of the conditions and injected integers symbolic")
     c.chunk = 1
-    for name, text, tab in HAND_TEXTS + [(f"generated-{k}", t, tab) for k, (t, tab) in enumerate(CASE_TEXTS)]:
+    import re as _re
+    # the same hand-written texts with the conditions written as plain references ('@case {?c0}' instead of '@case ("{?c0}")')
+    bare = [(n + "[conditions-as-plain-references]", _re.sub(r'\("\{\?c(\d)\}"\)', r'{?c\1}', t), tab) for n, t, tab in HAND_TEXTS if '("{?c' in t]
+    for name, text, tab in HAND_TEXTS + bare + [(f"generated-{k}", t, tab) for k, (t, tab) in enumerate(CASE_TEXTS)]:
         def pre(b, text=text, tab=tab):
             d, env, cs, vs = prestate(b, text)
             return dict(args=[d], env=dict(cs=cs, vs=vs, rows=tab["rows"], presence=tab["presence"], order=tab["order"], text=text))
@@ -530,6 +533,10 @@ C16_TEXTS = [
     ("own-value-used-twice-around-a-comparison-in-another-unit", 'lim float = 1 m\nsz float = {?w0} cm\n  !condition ("{?} < {?lim} && {?} < 5")', ("and", ("lt", w0, 100), ("lt", w0, 5)), [("sz", w0)]),
     ("own-value-used-twice-around-a-comparison-in-another-unit-2", 'lim float = 1 m\nsz float = {?w0} cm\n  !condition ("{?} < {?lim} && {?} > 5")', ("and", ("lt", w0, 100), ("gt", w0, 5)), [("sz", w0)]),
     ("another-node-used-twice-around-a-comparison-in-another-unit", 'lim float = {?w1} m\nsz float = {?w0} cm\n  !condition ("{?lim} > {?} && {?lim} < 3")', ("and", ("gt", ("*", w1, 100), w0), ("lt", w1, 3)), [("sz", w0)]),
+    # options and operands of integer nodes written in another unit are compared as the numbers they are (1.6 m is not 2 m)
+    ("integer-option-in-another-unit-that-is-no-whole-number", "height int = {?v0} m\n  = 1 m\n  = 160 cm", ("eq", v0, 1), [("height", v0)]),
+    ("integer-compared-with-an-integer-in-another-unit", 'limit int = 2 m\nisz int = {?v0} cm\n  !condition ("{?} >= {?limit}")', ("ge", v0, 200), [("isz", v0)]),
+    ("integer-compared-with-an-integer-in-another-unit-2", 'limit int = 151 cm\nisz int = {?v0} m\n  !condition ("{?} > {?limit}")', ("ge", v0, 2), [("isz", v0)]),
     # an imported copy carries the constraints of the original as its own: options added to the copy do not widen the original, nor vice versa
     ("options-added-to-an-imported-copy-do-not-widen-the-original", "backup\n  {?mode}\n    = 3\nmode = {?v0}", ("in", v0, [1, 2]), [("mode", v0), ("backup.mode", 1)]),
     ("options-added-to-an-imported-copy-hold-for-the-copy", "backup\n  {?mode}\n    = 3\nbackup.mode = {?v0}", ("in", v0, [1, 2, 3]), [("backup.mode", v0), ("mode", 1)]),
@@ -797,6 +804,8 @@ C14_TEXTS = [
     ("reference-to-a-declared-node-set-to-none", "d float m\nd = none\nlen = 7\nlen = {?d}", False, [("len", ("none",))], [("len", "cm")]),
     ("reference-to-a-node-that-was-none-and-got-a-value", "n2 float = none m\nn2 = {?w0}\nlen = {?n2}", False, [("len", ("*", w0, 100))], [("len", "cm")]),
     ("temperature-assigned-in-celsius", "tk float = 300 K\ntk = {?v0} Cel\ntz float = 300 K\ntz = 0 Cel\nlv float = 1 W\nlv = 0 dBm", False, [("tk", ("+", v0, 273.15)), ("tz", 273.15), ("lv", 0.001)], [("tk", "K"), ("tz", "K"), ("lv", "W")]),
+    ("narrow-and-unsigned-integers-keep-their-type-when-assigned-again", "big = 9\ncnt = 5\nu16 uint16 = 5 km\nu16 = 7\ni16 int16 = 1\ni16 int16 = {?v0}\nmass = 2", False,
+     [("big", 9), ("cnt", 5), ("u16", 7), ("i16", v0), ("mass", 2)], [("u16", "km"), ("mass", "kg")]),
     ("none-stating-another-unit", "len = none m\nmass = none g\ncnt = none", False, [("len", ("none",)), ("mass", ("none",)), ("cnt", ("none",))], [("len", "cm"), ("mass", "kg")]),
     ("none-stating-a-unit-of-another-dimension-refused", "len = none s", True, [], []),
     # arrays are values too: converted element by element; integer nodes keep integers
@@ -822,6 +831,14 @@ INTS14 = {"integer-in-another-unit-stays-an-integer": ["k2", "k"], "array-in-ano
 
 
 @spec
+def value_type_ok(n):
+    """the typed value of an integer / float node states the same width (and sign) as the node"""
+    if n.keyword not in ('int', 'float') or n.value is None:
+        return True
+    return int(n.value.precision) == int(n.precision) and (n.keyword != 'int' or n.value.unsigned == n.unsigned)
+
+
+@spec
 def is_integral(v):
     return all([typename(x) == 'int' for x in v]) if isinstance(v, list) else typename(v) == 'int'
 
@@ -836,6 +853,7 @@ def _(c):
             return dict(args=[d], env=dict(S=S, refused=refused, vals=vals, units=units, text=text, arrays=ARRAYS14.get(name, []), ints=INTS14.get(name, [])))
         c.scenario(name, pre)
     c.raises("ev(refused, S)", label="refused-iff-type-dimension-constant-or-missing-value")
+    c.ensures("all([value_type_ok(n) for n in result.nodes])", "the-value-carries-the-declared-width-and-sign")
     c.ensures("all([array_of(result, nm) == xs for nm, xs in arrays])", "arrays-converted-element-by-element")
     c.ensures("all([is_integral(val_of(result, nm)) for nm in ints])", "integer-nodes-hold-integers")
     c.ensures("all([agrees(val_of(result, nm), t, S) for nm, t in vals])", "last-assigned-value-in-the-definition-unit")
@@ -878,6 +896,9 @@ def _(c):
 
 # ---- C13: whole texts whose data are the literals themselves (concrete; executed by the same interpreter, decided by ground evaluation) ----
 C13_TEXTS = [
+    # the declared width is part of the type, the numbers are the ones written (0.1 is 0.1, not its single-precision neighbour)
+    ("narrow-float-arrays-keep-the-numbers-written", 'w float32[3] = [0.1,0.2,2.5] V\nx float32 = 0.1\nblk float32[2] = """\n[0.7,1e-3]\n""" m\nq float128[2] = [0.1,0.25]',
+     [("w", "float", [0.1, 0.2, 2.5], "V"), ("x", "float", 0.1, None), ("blk", "float", [0.7, 1e-3], "m"), ("q", "float", [0.1, 0.25], None)]),
     # only the line feed ends a line: form feed, vertical tab, NEL, the Unicode line/paragraph separators, the FS/GS/RS controls and a lone
     # carriage return are ordinary characters of a comment or a quoted string
     ("other-separator-characters-are-content", 'box   # old\x0cnotes\n  size int = 3   # a\x85b \u2029 c\n  title str = "page one\x0cpage two"\n'
@@ -1139,6 +1160,40 @@ def _(c):
     c.no_raise()
 
 
+# ---- C18/C09 after a REFUSED expression: an earlier parse (or an earlier expression) over custom units that was refused -- unknown reference,
+#      operands of different dimension -- leaves the process as it was: the same units can be defined and used again ---------------------------
+REFUSED18 = [("logical-with-an-unknown-reference", 'z bool = ("{?nope} == 1 [len]")'), ("logical-of-different-dimensions", 'z bool = ("{?a} == 1 J")'),
+             ("numerical-of-different-dimensions", 'z float = ("{?a} + 1 s") m'), ("condition-of-different-dimensions", '@case ("{?a} > 1 J")\n  z int = 1\n@end')]
+
+
+@contract(DIPC + ".parse", ["C18", "C09"], name="DIP.parse[after-a-refused-expression-over-custom-units]")
+def _(c):
+    c.bound = f"{len(REFUSED18)} refused texts that define a custom unit, each followed by a valid text defining a unit of the same name; referenced values symbolic"
+    from contracts.units_environment import gstate, US, UP, UT
+    for name, bad in REFUSED18:
+        def pre(b, bad=bad):
+            us, up, ut = b.glob(US), b.glob(UP), b.glob(UT)
+            g0 = b.call(b.specfn(gstate), us, up, ut)
+            d1, env1, S1 = prestate2(b, PRE18, '$unit len = 2 m\np float = 3 [len]\n' + bad, name="first")
+            r, exc = b.call_catching(b.getattr(d1, "parse"))
+            b.assume(exc is not None)
+            S = dict(S1)
+            d0 = b.new(DIPC, name="prelude2")
+            b.call(b.getattr(d0, "add_string"), PRE18.text)
+            env = b.call(b.getattr(d0, "parse"))
+            nodes = b.getattr(env, "nodes")
+            for i, nm in enumerate(PRE18.names):
+                if nm in PRE18.symbols:
+                    b.setattr(b.getattr(b.call(b.getattr(nodes, "__getitem__"), i), "value"), "value", S[PRE18.symbols[nm][1]])
+            d = b.new(DIPC, env, name="second")
+            b.call(b.getattr(d, "add_string"), '$unit len = 5 m\nx float = ("{?a} + 1 [len]") m\nz bool = ("{?a} < 1 [len]")')
+            return dict(args=[d], env=dict(S=S, us=us, up=up, ut=ut, g0=g0))
+        c.scenario(name, pre)
+    c.ensures("agrees(val_of(result, 'x'), ('+', ('s', 'wa'), 5), S) and agrees(val_of(result, 'z'), ('lt', ('s', 'wa'), 5), S)", "expressions-use-the-size-defined-by-this-text")
+    c.ensures("gstate(us, up, ut) == g0", "unit-tables-as-before-both-parses")
+    c.no_raise()
+
+
 # ---- C19: booleans are written as bash's 0 (true) / -1 (false) -- scalars, array elements and cells of multi-dimensional arrays alike --------
 @contract(EXB + ".parse", ["C19"], name="ExportConfigBash.parse[boolean-arrays]")
 def _(c):
@@ -1153,6 +1208,37 @@ def _(c):
     c.ensures("result.split('\\n') == ['export RUN_MASK=(\"0\" \"-1\" \"0\")', 'declare -A RUN_GRID', 'RUN_GRID[0,0]=0', 'RUN_GRID[0,1]=-1', 'RUN_GRID[1,0]=-1', 'RUN_GRID[1,1]=-1', "
               "'export RUN_GRID', 'export ON=0', 'export OFF=-1', 'export N=(\"1\" \"2\")']", "true-is-0-and-false-is-minus-1-everywhere")
     c.no_raise()
+
+
+# ---- C19: the units option of the JSON / YAML / TOML exports is honoured on every call: an exporter used before (with the other option, or
+#      after selecting something else and the same again) writes what a fresh exporter writes; the selected data are not rewritten -----------
+EXPORTS_UNITS = {
+    "dip/config/export_json.py::ExportConfigJSON": ('{"box.w": {"value": 12.0, "unit": "cm"}, "n": 3}', '{"box.w": 12.0, "n": 3}'),
+    "dip/config/export_yaml.py::ExportConfigYAML": ('box.w:\n  unit: cm\n  value: 12.0\nn: 3', 'box.w: 12.0\nn: 3'),
+    "dip/config/export_toml.py::ExportConfigTOML": ('n = 3\n\n["box.w"]\nvalue = 12.0\nunit = "cm"', '"box.w" = 12.0\nn = 3'),
+}
+
+
+for _cls, (_with, _without) in EXPORTS_UNITS.items():
+    @contract(_cls + ".parse", ["C19"], name=_cls.split("::")[1] + ".parse[exporter-used-before]")
+    def _(c, cls=_cls, w=_with, wo=_without):
+        c.bound = "one environment (a float with a unit in a group, an integer); the exporter was used with the other units option, with or without a re-selection in between"
+        for units in (True, False):
+            for reselect in (False, True):
+                def pre(b, units=units, reselect=reselect):
+                    d0 = b.new(DIPC, name="t")
+                    b.call(b.getattr(d0, "add_string"), "box.w float = 12 cm\nn int = 3")
+                    e = b.new(cls, b.call(b.getattr(d0, "parse")))
+                    b.call(b.getattr(e, "parse"), units=not units)
+                    if reselect:
+                        b.call(b.getattr(e, "select"), "box.*")
+                        b.call(b.getattr(e, "parse"), units=not units)
+                        b.call(b.getattr(e, "select"))
+                    return dict(args=[e], kwargs=dict(units=units), env=dict(want=w if units else wo))
+                c.scenario(("units-on" if units else "units-off") + ("-after-selecting-something-else-and-all-again" if reselect else "-after-the-other-option"), pre)
+        c.ensures("result == want", "same-text-as-a-fresh-exporter-with-this-option")
+        c.no_raise()
+        c.modifies("self.text")
 
 
 # ---- C19: save() leaves exactly the exported text in the file, whatever was at that path before ------------------------------------------------
